@@ -18,7 +18,7 @@ from __future__ import annotations
 
 import ast
 
-from engine.cfg import call_name, cfg_of
+from engine.cfg import expand_aliases, call_name, cfg_of
 from engine.errors import AnalysisError
 from engine.repo import walk_no_nested
 from engine.util import calls_in, local_assignments, unparse
@@ -76,7 +76,7 @@ def run(ctx):  # noqa: C901, PLR0912, PLR0915
                'same transaction' if same else
                'set_location associates a new location state without disassociating the previous one in the same '
                'transaction (two associated states for one descriptor)', fi=sl, node=c)
-    sc = repo.func(CP)
+    sc = expand_aliases(repo.func(CP))  # pm_types / new_mdib_version style aliases written out
     g = cfg_of(sc)
     g.dom  # noqa: B018
     bind = [(n, t) for n, t in _stores(g, {'BindingMdibVersion'})]
@@ -93,8 +93,9 @@ def run(ctx):  # noqa: C901, PLR0912, PLR0915
     # the association test itself
     for n, t in bind:
         facts = g.facts_at(n)
-        ok = any('proposed_st.ContextAssociation == pm_types.ContextAssociation.ASSOCIATED' in txt and pol is True
-                 for txt, pol in facts)
+        pv = {lp.target.id for lp in n.loops if isinstance(lp, ast.For) and isinstance(lp.target, ast.Name)}  # proposal loop var
+        ok = any(pol is True and any(f'{v}.ContextAssociation == ' in txt for v in pv) and
+                 'ContextAssociation.ASSOCIATED' in txt and ' or ' not in txt for txt, pol in facts)
         ctx.ob('C10.R1', f'_set_context_state: binding only when associated ({n.lineno and "site"})'
                .replace('site', unparse(t)) + f' #{bind.index((n, t))}', ok,
                'the binding version is set exactly when the proposed state is ASSOCIATED', fi=sc, node=n.stmt)
@@ -107,6 +108,7 @@ def run(ctx):  # noqa: C901, PLR0912, PLR0915
         if not any(isinstance(n, ast.Attribute) and n.attr in ('BindingMdibVersion', 'UnbindingMdibVersion') and
                    isinstance(n.ctx, ast.Store) for n in ast.walk(fi.node)):
             continue
+        fi = expand_aliases(fi)  # `v = mgr.new_mdib_version` style aliases written out
         g = cfg_of(fi)
         for n, t in _stores(g, {'BindingMdibVersion', 'UnbindingMdibVersion'}):
             sites.append((fi, g, n, t))
@@ -120,7 +122,9 @@ def run(ctx):  # noqa: C901, PLR0912, PLR0915
             # parameter: all call sites must pass new_mdib_version
             args = []
             for f2 in repo.funcs.values():
-                for c in calls_in(f2.node, fi.name):
+                if not calls_in(f2.node, fi.name):
+                    continue
+                for c in calls_in(expand_aliases(f2).node, fi.name):
                     for k in c.keywords:
                         if k.arg == v.id:
                             args.append(unparse(k.value))
@@ -192,65 +196,94 @@ def run(ctx):  # noqa: C901, PLR0912, PLR0915
            'between (e.g. set_location) is missed by disassociate_all and two states end up associated', fi=sc)
 
     # ------------------------------------------------------------------ R3
-    for q, skip_expect in ((f'{TR}.ContextStateTransaction.disassociate_all',
-                            {'old_state.Handle == ignored_handle', 'old_state.Handle in self._state_updates'}),
-                           (f'{XT}.disassociate_all',
-                            {'state.Handle == ignored_handle',
-                             'state.ContextAssociation == pm_types.ContextAssociation.NO_ASSOCIATION'})):
-        fi = repo.func(q)
+    # Path conditions as truth tables (engine/pathcond.py): a state X of the descriptor is marked DISASSOCIATED exactly when
+    #     not skipped(X)  and  (X.ContextAssociation != DISASSOCIATED  or  X.UnbindingMdibVersion is None)
+    # and the unbinding version is written exactly when, in addition, the edited object has none yet - whatever mix of
+    # `continue` guards, nested ifs or one combined condition the loop uses, and whatever the loop variable is called.
+    from engine.pathcond import worlds_of
+    for q, skips in ((f'{TR}.ContextStateTransaction.disassociate_all',
+                      ('{x}.Handle == ignored_handle', '{x}.Handle in self._state_updates')),
+                     (f'{XT}.disassociate_all',
+                      ('{x}.Handle == ignored_handle', '{x}.ContextAssociation == {pm}.ContextAssociation.NO_ASSOCIATION'))):
+        fi = expand_aliases(repo.func(q))
         g = cfg_of(fi)
+        loops = [n for n in walk_no_nested(fi.node) if isinstance(n, ast.For) and isinstance(n.target, ast.Name)]
         marks = [n for n, t in _stores(g, {'ContextAssociation'})
                  if unparse(n.stmt.value).endswith('ContextAssociation.DISASSOCIATED')]
         unb = [n for n, t in _stores(g, {'UnbindingMdibVersion'})]
-        ok = bool(marks) and bool(unb)
-        for n in unb:
-            ok = ok and any(txt.endswith('UnbindingMdibVersion is None') and ' or ' not in txt and pol is True
-                            for txt, pol in g.facts_at(n))
-            ok = ok and any(g.dominates(m, n) for m in marks)
-        for m in marks:
-            facts = g.facts_at(m)
-            ok = ok and any('DISASSOCIATED or' in txt.replace('!=', '!=') and 'UnbindingMdibVersion is None' in txt and pol
-                            for txt, pol in facts)
-        conts = [n for n in g.nodes if n.kind == 'continue']
-        skip = set()
-        for c in conts:
-            for txt, pol in g.facts_at(c):
-                if pol is True and ' or ' in txt:
-                    skip |= {x.strip() for x in txt.split(' or ')}
+        ok = len(loops) == 1 and len(marks) == 1 and len(unb) == 1
+        wit = None
+        skip_ok = ok
+        if ok:
+            x = loops[0].target.id
+            pm = unparse(marks[0].stmt.value).rsplit('.ContextAssociation.DISASSOCIATED', 1)[0]
+            edited = unparse(unb[0].stmt.targets[0].value)
+            sk = [t.format(x=x, pm=pm) for t in skips]
+            dis = f'{x}.ContextAssociation == {pm}.ContextAssociation.DISASSOCIATED'
+            nounb = f'{x}.UnbindingMdibVersion is None'
+            ed_nounb = f'{edited}.UnbindingMdibVersion is None'
+            w = worlds_of(g, extra_atoms=(*sk, dis, nounb, ed_nounb))
+            want_mark = f'not ({sk[0]}) and not ({sk[1]}) and (not ({dis}) or {nounb})'
+            ok1, w1 = w.equivalent(w.cond(marks[0]), want_mark)
+            ok2, w2 = w.equivalent(w.cond(unb[0]), f'({want_mark}) and {ed_nounb}')
+            ok = ok1 and ok2 and g.dominates(marks[0], unb[0])
+            # nothing at all is written for a skipped state
+            writes = [n for n, t in _stores(g, {'ContextAssociation', 'UnbindingMdibVersion', 'BindingEndTime'})]
+            skip_ok, w3 = w.implies(w.cond_any(writes), f'not ({sk[0]}) and not ({sk[1]})')
+            wit = {'marked when': w.describe(w.cond(marks[0])), 'unbinding written when': w.describe(w.cond(unb[0])),
+                   'difference': w1 or w2 or w3}
         ctx.ob('C10.R3', f'{fi.cls.name}.disassociate_all marks', ok,
                'every state that is not yet (properly) disassociated is marked DISASSOCIATED; the unbinding version is '
-               'set when absent', fi=fi)
-        ctx.ob('C10.R3', f'{fi.cls.name}.disassociate_all skip set', skip == skip_expect,
-               f'skipped states are exactly: {sorted(skip_expect)}', fi=fi, witness=sorted(skip))
+               'set when absent', fi=fi, witness=wit)
+        ctx.ob('C10.R3', f'{fi.cls.name}.disassociate_all skip set', skip_ok,
+               f'skipped states are exactly: {[t.format(x="state", pm="pm_types") for t in skips]}', fi=fi, witness=wit)
         rets = [n for n in walk_no_nested(fi.node) if isinstance(n, ast.Return)]
         ctx.ob('C10.R3', f'{fi.cls.name}.disassociate_all loop', any(isinstance(n, ast.For) for n in walk_no_nested(fi.node))
                and len(rets) == 1 and not any(isinstance(n, ast.Break) for n in walk_no_nested(fi.node)),
                'all states of the descriptor are visited (single loop, no break, single return)', fi=fi)
     # transaction variant goes through get_context_state (copy, version, transaction membership)
     d1 = repo.func(f'{TR}.ContextStateTransaction.disassociate_all')
+    g1 = cfg_of(d1)
+    lv = [n.target.id for n in walk_no_nested(d1.node) if isinstance(n, ast.For) and isinstance(n.target, ast.Name)]
+    edited = {unparse(t.value) for n, t in _stores(g1, {'ContextAssociation', 'UnbindingMdibVersion', 'BindingEndTime'})}
+    from_getter = all(any(isinstance(v, ast.Call) and call_name(v) == 'get_context_state'
+                          for v in local_assignments(d1.node).get(e, [None])) and
+                      len(local_assignments(d1.node).get(e, [])) == 1 for e in edited)
     ctx.ob('C10.R3', 'transaction variant edits the transaction copy',
-           'transaction_state = self.get_context_state(old_state.Handle)' in unparse(d1.node) and
-           'old_state.ContextAssociation =' not in unparse(d1.node),
-           'disassociate_all edits the copy obtained through get_context_state, never the MDIB object', fi=d1)
+           bool(edited) and from_getter and not (edited & set(lv)),
+           'disassociate_all edits the copy obtained through get_context_state, never the MDIB object', fi=d1,
+           witness=sorted(edited))
 
     # ------------------------------------------------------------------ R4
-    g = cfg_of(sc)
-    raises = [n for n in g.nodes if n.kind == 'raisestmt' and any('len(states) > 1' in txt and pol
+    import re
+    scx = expand_aliases(sc)   # pm_types-style aliases written out
+    g = cfg_of(scx)
+    # the counting: <dict>[<x>.DescriptorHandle].append(..) under the fact "<x>.ContextAssociation == ...ASSOCIATED"
+    counted = []
+    for n, c in g.nodes_calling('append'):
+        tgt = c.func.value
+        if isinstance(tgt, ast.Subscript) and isinstance(tgt.slice, ast.Attribute) and tgt.slice.attr == 'DescriptorHandle' \
+                and isinstance(tgt.slice.value, ast.Name) and isinstance(tgt.value, ast.Name):
+            x = tgt.slice.value.id
+            assoc = any(pol is True and '==' in txt and f'{x}.ContextAssociation' in txt and
+                        'ContextAssociation.ASSOCIATED' in txt for txt, pol in g.facts_at(n))
+            counted.append((tgt.value.id, assoc))
+    dicts = {d for d, a in counted if a}
+    raises = [n for n in g.nodes if n.kind == 'raisestmt' and any(re.fullmatch(r'len\(\w+\) > 1', txt) and pol
                                                                   for txt, pol in g.facts_at(n))]
     withs = [n for n in g.nodes if n.kind == 'with' and 'context_state_transaction' in n.text()]
     if not withs:
         raise AnalysisError('C10.R4: transaction with-statement not found in _set_context_state')
     ok = bool(raises) and all(not r.withs for r in raises)
     # the with statement is reachable only after the check loop finished
-    loops = [n for n in g.nodes if n.kind == 'for' and 'proposed_by_handle.items()' in n.text()]
-    ok = ok and bool(loops) and all(g.dominates(loops[0], w) for w in withs)
+    loops = [n for n in g.nodes if n.kind == 'for' and any(n.text().endswith(f' in {d}.items()') for d in dicts)]
+    ok = ok and bool(loops) and all(g.dominates(loops[0], w) for w in withs) and \
+        all(any(lp.stmt in r.loops for lp in loops) for r in raises)
     ctx.ob('C10.R4', 'double association rejected first', ok,
            'the check for more than one associated state per descriptor raises before the transaction is opened',
            fi=sc, witness=[r.lineno for r in raises])
     # the counting only counts ASSOCIATED proposals, per DescriptorHandle
-    src = unparse(sc.node)
-    ok = 'if st.ContextAssociation == pm_types.ContextAssociation.ASSOCIATED' in src and \
-        'proposed_by_handle[st.DescriptorHandle].append(st)' in src
+    ok = bool(dicts)
     ctx.ob('C10.R4', 'count per descriptor', ok, 'associated proposals are counted per DescriptorHandle', fi=sc)
 
     # ------------------------------------------------------------------ R5
